@@ -101,6 +101,7 @@ pub fn run(cfg: &RunCfg) -> Ctx {
         all.floor(&format!("mut.{}", m), 3);
     }
     all.floor("dir.request", 10);
+    all.floor("body.segmented_data", 10);
     all.floor("dir.response", 10);
     all.floor("observed.first_error_then_polled_again", 50);
     all
@@ -347,13 +348,18 @@ fn case(rng: &mut Rng, ctx: &mut Ctx, forced: Option<(&str, Vec<u8>)>) {
     }
 
     // run and reduce to (yielded payload bytes, terminal kinds)
-    let (yielded, seq_kinds, first_err_code, stalled, budget, busy, after_end): (Vec<Vec<u8>>, Vec<u8>, Option<tonic::Code>, bool, bool, bool, usize) = if prost {
+    // one case in three hands the same bytes over as non-contiguous buffers
+    let segmented = rng.chance(1, 3);
+    if segmented {
+        ctx.count("body.segmented_data");
+    }
+    let (yielded, seq_kinds, first_err_code, stalled, budget, busy, after_end): (Vec<Vec<u8>>, Vec<u8>, Option<tonic::Code>, bool, bool, bool, usize) = crate::codec_drv::with_segmented(segmented, || if prost {
         let out = decode_run_opts(ProstCodec::<Msg, Msg>::raw_decoder(BufferSettings::new(bs, 32768)), steps, dir, enc, limit_opt, 8, eager, false, unfused);
         reduce(&out, |m: &Msg| ref_pb_encode(&m.data, m.seq, &m.tag))
     } else {
         let out = decode_run_opts(RawDecoder { bs: (bs, 32768) }, steps, dir, enc, limit_opt, 8, eager, false, unfused);
         reduce(&out, |m: &Vec<u8>| m.clone())
-    };
+    });
     ctx.max("max.body_polls_after_end", after_end as u64);
     if stalled {
         ctx.violation("hang", "stream returned Pending with no wake-up registered (would hang)".into());
